@@ -135,6 +135,9 @@ func (c *Conn) CloseNow() {
 	c.r.rclosed = true
 }
 
+// Faulted reports whether an injected read or write error has struck this end.
+func (c *Conn) Faulted() bool { return c.writeErr != nil || c.r.readErr != nil }
+
 // FailReads makes every later Read of this end fail with err.
 func (c *Conn) FailReads(err error) { c.r.readErr = err }
 
